@@ -244,6 +244,28 @@ func c05FullBlock(v spec.DataVersion, tag byte) *api.VersionedSignedProposal {
 	return p
 }
 
+// c05Build constructs the real block proposer over the environment.
+func c05Build(e *c05Env) *standardproposer.Service {
+	accts := &accountsTable{byIndex: map[phase0.ValidatorIndex]*hAccount{7: e.acct}}
+	params := []standardproposer.Parameter{
+		standardproposer.WithLogLevel(zerolog.Disabled), standardproposer.WithMonitor(&nullmetrics.Service{}),
+		standardproposer.WithChainTime(newChainTime(-int64(c05Slot)*int64(12*time.Second), 12*time.Second, 32)),
+		standardproposer.WithProposalDataProvider(e), standardproposer.WithValidatingAccountsProvider(accts),
+		standardproposer.WithExecutionChainHeadProvider(e), standardproposer.WithProposalSubmitter(e),
+		standardproposer.WithRANDAORevealSigner(e), standardproposer.WithBeaconBlockSigner(e), standardproposer.WithBlobSidecarSigner(e),
+		standardproposer.WithUnblindFromAllRelays(e.all),
+	}
+	if e.graffiti != "none" {
+		params = append(params, standardproposer.WithGraffitiProvider(e))
+	}
+	if e.auction != "none" {
+		params = append(params, standardproposer.WithBlockAuctioneer(e))
+	}
+	svc, err := standardproposer.New(context.Background(), params...)
+	must(err)
+	return svc
+}
+
 type c05Combo struct {
 	v       spec.DataVersion
 	blinded bool
@@ -288,23 +310,7 @@ func c05Units(tier string) []hx.Unit {
 						e.relays = append(e.relays, &c05Relay{idx: i, env: e, beh: "full"})
 					}
 				}
-				accts := &accountsTable{byIndex: map[phase0.ValidatorIndex]*hAccount{7: e.acct}}
-				params := []standardproposer.Parameter{
-					standardproposer.WithLogLevel(zerolog.Disabled), standardproposer.WithMonitor(&nullmetrics.Service{}),
-					standardproposer.WithChainTime(newChainTime(-int64(c05Slot)*int64(12*time.Second), 12*time.Second, 32)),
-					standardproposer.WithProposalDataProvider(e), standardproposer.WithValidatingAccountsProvider(accts),
-					standardproposer.WithExecutionChainHeadProvider(e), standardproposer.WithProposalSubmitter(e),
-					standardproposer.WithRANDAORevealSigner(e), standardproposer.WithBeaconBlockSigner(e), standardproposer.WithBlobSidecarSigner(e),
-					standardproposer.WithUnblindFromAllRelays(e.all),
-				}
-				if e.graffiti != "none" {
-					params = append(params, standardproposer.WithGraffitiProvider(e))
-				}
-				if au != "none" {
-					params = append(params, standardproposer.WithBlockAuctioneer(e))
-				}
-				svc, err := standardproposer.New(context.Background(), params...)
-				must(err)
+				svc := c05Build(e)
 				duty := beaconblockproposer.NewDuty(c05Slot, 7)
 				ctx, cancel := mcontext.WithTimeout(context.Background(), 8*time.Second)
 				defer cancel()
